@@ -7,7 +7,7 @@ CONSTANTS
   MaxDepth = 1
   Fam = {"ReseedAt", "RerootAtNode", "RerootAtEdge", "RerootAtMidpoint", "ToOutgroupPosition", "Ladderize", "Reorder"}
   Rootings = {0, 1}
-  LenPats = {"none", "unit", "zero", "mixed", "rootlen"}
+  LenPats = {"rootmixed", "none", "unit", "zero", "mixed", "rootlen"}
   ShapeMode = "ordered"
   OptsFirst <- OptsAll
   OptsLater <- OptsOA
